@@ -4,6 +4,7 @@ let suites : (string * (Sexp.t -> Sexp.t -> Verdict.t)) list = [
   "sub", S_sub.run `C02;
   "subsh", S_sub.run `C11;
   "tm", S_sub.run_tm;
+  "ret", S_ret.run;
 ]
 
 let () =
